@@ -76,9 +76,13 @@ type c08Case struct {
 	Ctx int `json:"context_kind,omitempty"`
 	// BPOp: the embedder's debugger edits the breakpoints from inside the device callback at access BPAt:
 	// 1 installs the map (the field was nil when Run was entered); 2 sets the field to nil; 3 adds the
-	// addresses to the (initially empty, non-nil) map
-	BPOp int `json:"breakpoint_edit,omitempty"`
-	BPAt int `json:"breakpoint_edit_at_access,omitempty"`
+	// addresses to the (initially empty, non-nil) map; 4 swaps: deletes BPs[0] and inserts SwapIn (the size of
+	// the map does not change). Fill > 0: the map additionally holds that many addresses the program never
+	// reaches (7000h...), a large set.
+	BPOp   int    `json:"breakpoint_edit,omitempty"`
+	BPAt   int    `json:"breakpoint_edit_at_access,omitempty"`
+	SwapIn uint16 `json:"breakpoint_swapped_in,omitempty"`
+	Fill   int    `json:"unreached_breakpoints,omitempty"`
 	// Kind/Kind2 (if non-zero) override NMI/NMI2: 1 NMI, 2 IM1, 3 mode-0 request whose instruction is HALT,
 	// 4 mode-0 RST 38, 5 mode-0 INC A. Kinds 3..5 run the CPU in interrupt mode 0.
 	Kind  int `json:"request_kind,omitempty"`
@@ -128,6 +132,7 @@ type c08Side struct {
 	kind, kind2 int
 	bpOp        int
 	bpAt        int
+	swapIn      uint16
 	bps         []uint16
 	// edited: the callback has performed the breakpoint edit
 	edited bool
@@ -159,6 +164,9 @@ func newC08Side(bg *[65536]uint8) *c08Side {
 				for _, b := range s.bps {
 					s.cpu.BreakPoints[b] = struct{}{}
 				}
+			case 4:
+				delete(s.cpu.BreakPoints, s.bps[0])
+				s.cpu.BreakPoints[s.swapIn] = struct{}{}
 			}
 		}
 		s.n++
@@ -195,6 +203,10 @@ func (s *c08Side) load(p *c08Prog, cs *c08Case) {
 			}
 		}
 	}
+	for i := 0; i < cs.Fill && s.cpu.BreakPoints != nil; i++ {
+		s.cpu.BreakPoints[uint16(0x7000+i*3)] = struct{}{}
+	}
+	s.swapIn = cs.SwapIn
 	s.n, s.j, s.nmi, s.j2, s.nmi2 = 0, cs.J, cs.NMI, cs.J2, cs.NMI2
 	s.kind, s.kind2 = cs.Kind, cs.Kind2
 	if s.kind == 0 {
@@ -231,6 +243,11 @@ func (s *c08Side) wantBPs(cs *c08Case) (isNil bool, addrs []uint16) {
 	case 3:
 		if !s.edited {
 			return false, nil
+		}
+		return false, cs.BPs
+	case 4:
+		if s.edited {
+			return false, append([]uint16{cs.SwapIn}, cs.BPs[1:]...)
 		}
 		return false, cs.BPs
 	}
@@ -349,6 +366,12 @@ func c08One(a, b *c08Side, p *c08Prog, cs *c08Case) (d []string, totalSteps int)
 		if len(cs.Swaps) > 0 {
 			want = cur
 		}
+		if !wantNil && cs.Fill > 0 {
+			want = append([]uint16{}, want...)
+			for i := 0; i < cs.Fill; i++ {
+				want = append(want, uint16(0x7000+i*3))
+			}
+		}
 		if !wantNil {
 			if a.cpu.BreakPoints == nil || len(a.cpu.BreakPoints) != len(want) {
 				d = append(d, fmt.Sprintf("Run #%d changed the BreakPoints map (now %d entries, the embedder put %d)", run+1, len(a.cpu.BreakPoints), len(want)))
@@ -423,6 +446,31 @@ func checkC08(c *Ctx) {
 			cases = append(cases, c08Case{Prog: pi, BPs: []uint16{del}, Runs: 4, J: -1, Swaps: []c08Swap{{AfterRun: 1, Fresh: true}, {AfterRun: 2, Del: del, Add: p.bps[0] + 1}}, Salt: c.Salt})
 		}
 	}
+	// a callback swaps one breakpoint for another in place (the size of the map does not change), in a small
+	// and in a large set; and the static configurations again with a large set
+	for pi, p := range progs {
+		for _, fill := range []int{0, 40} {
+			for _, del := range p.bps {
+				for _, add := range p.bps {
+					if del == add {
+						continue
+					}
+					for at := 0; at < 24; at++ {
+						cases = append(cases, c08Case{Prog: pi, BPs: []uint16{del}, Runs: 4, J: -1, BPOp: 4, BPAt: at, SwapIn: add, Fill: fill, Ctx: at % 2, Salt: c.Salt})
+					}
+				}
+			}
+		}
+		for mask := 1; mask < 1<<uint(len(p.bps)); mask++ {
+			var bps []uint16
+			for i := range p.bps {
+				if mask&(1<<uint(i)) != 0 {
+					bps = append(bps, p.bps[i])
+				}
+			}
+			cases = append(cases, c08Case{Prog: pi, BPs: bps, Runs: 4, J: -1, Fill: 40, Salt: c.Salt})
+		}
+	}
 	nEdit := 0
 	for pi, p := range progs {
 		// the debugger edits the breakpoints from inside a device callback, at every access index
@@ -435,7 +483,7 @@ func checkC08(c *Ctx) {
 			}
 		}
 	}
-	c.Rule = fmt.Sprintf("%d terminating programs (straight line; HALT first; multi-byte instruction with a breakpoint inside; code wrapping FFFF->0000 into a HALT; DJNZ loop with a breakpoint on its head; LDIR with a breakpoint on itself; CALL/RET; EI + IN/OUT with handlers; DI;HALT; prefix-only tail; JP; HALT at FFFF; HALT at 0000; HALT;HALT) x all subsets of each program's 2..5 candidate breakpoint addresses + nil map + stale halted indication (%d configurations) x history Run;Run;Run;Run x {no request; NMI, IM1, a mode-0 request whose instruction is HALT, mode-0 RST 38, mode-0 INC A raised from inside the memory/port callback at every access index j of the history, or already pending when the first Run is entered}; breakpoint maps edited in place between two Runs (one address swapped for another, the map object and its size unchanged; the map replaced by an equal new object). Contexts: Background, a WithCancel context nobody cancels, a WithValue child. Breakpoint edits from inside a device callback at every access index 0..39 (install the map when the field was nil on entry; set the field to nil; add addresses to an empty map) x 3 address sets. Concrete-type pass: every program by Run on the package's own DumbMemory (len 65536 and 65536+256) / MapMemory and DumbIO handed over unwrapped, against a Step-driven twin on identical devices behind opaque wrappers, with nil / never-reached breakpoints, two Runs: same error, States (incl. R), HALT and device contents. Oracle: Step-driven twin with the stop rule applied outside. Non-trivial = histories with at least one breakpoint hit or callback-raised request (counted).", len(progs), len(cases))
+	c.Rule = fmt.Sprintf("%d terminating programs (straight line; HALT first; multi-byte instruction with a breakpoint inside; code wrapping FFFF->0000 into a HALT; DJNZ loop with a breakpoint on its head; LDIR with a breakpoint on itself; CALL/RET; EI + IN/OUT with handlers; DI;HALT; prefix-only tail; JP; HALT at FFFF; HALT at 0000; HALT;HALT) x all subsets of each program's 2..5 candidate breakpoint addresses + nil map + stale halted indication (%d configurations) x history Run;Run;Run;Run x {no request; NMI, IM1, a mode-0 request whose instruction is HALT, mode-0 RST 38, mode-0 INC A raised from inside the memory/port callback at every access index j of the history, or already pending when the first Run is entered}; breakpoint maps edited in place between two Runs (one address swapped for another, the map object and its size unchanged; the map replaced by an equal new object). Contexts: Background, a WithCancel context nobody cancels, a WithValue child. Breakpoint edits from inside a device callback at every access index 0..39 (install the map when the field was nil on entry; set the field to nil; add addresses to an empty map) x 3 address sets; a callback swapping one breakpoint for another in place (map size unchanged) at access 0..23, in small sets and in sets with 40 more addresses the program never reaches; all static subsets again in such a large set. Concrete-type pass: every program by Run on the package's own DumbMemory (len 65536 and 65536+256) / MapMemory and DumbIO handed over unwrapped, against a Step-driven twin on identical devices behind opaque wrappers, with nil / never-reached breakpoints, two Runs: same error, States (incl. R), HALT and device contents. Oracle: Step-driven twin with the stop rule applied outside. Non-trivial = histories with at least one breakpoint hit or callback-raised request (counted).", len(progs), len(cases))
 	c.Bound = "4 Run calls; <=1 callback-raised request at every access index (thorough: <=2, every pair of indices)"
 	bg := obsBackground(c)
 	type sidePair struct{ a, b *c08Side }
@@ -458,7 +506,7 @@ func checkC08(c *Ctx) {
 			if len(cs.BPs) > 0 {
 				nt++
 			}
-			if cs.BPOp != 0 || cs.Ctx == 2 || len(cs.Swaps) > 0 {
+			if cs.BPOp != 0 || cs.Ctx == 2 || len(cs.Swaps) > 0 || cs.Fill > 0 {
 				if d != nil {
 					cs.Name = p.name
 					c.Report(fmt.Sprintf("c08/run:%s", p.name), ci*1000, "", cs, cloneStrings(append([]string{fmt.Sprintf("program %q, breakpoints %04X, context kind %d, breakpoint edit %d at access %d, edits between Runs %+v", p.name, cs.BPs, cs.Ctx, cs.BPOp, cs.BPAt, cs.Swaps)}, d...)))
